@@ -612,7 +612,7 @@ func itoa(i int) string {
 func init() {
 	register(&PropSpec{
 		ID:          "C19",
-		Explanation: "Decides the structural clause 'every data-disclosing entry point is dominated by a successful credential check, and the credential checks accept only the credentials the property names': dominance of authorize()==nil over all DB/stream operations in each rpc.Server method; password lattice of authorize; dominance of authenticate()==true over every data-serving call reachable from the registered web routes; path lattice of authenticate (unconfigured | decoded cookie and (unexpired | org re-verified) | header==Password) and of the cookie issuance in oauthCode. Added clauses: bool helpers a 'return true' relies on are examined with the caller's facts; generated cookie keys are filled completely by crypto/rand.",
+		Explanation: "Decides the structural clause 'every data-disclosing entry point is dominated by a successful credential check, and the credential checks accept only the credentials the property names': dominance of authorize()==nil over all DB/stream operations in each rpc.Server method; password lattice of authorize; dominance of authenticate()==true over every data-serving call reachable from the registered web routes; path lattice of authenticate (unconfigured | decoded cookie and (unexpired | org re-verified) | header==Password) and of the cookie issuance in oauthCode. Added clauses: bool helpers a 'return true' relies on are examined with the caller's facts; generated cookie keys are filled completely by crypto/rand. Further clause: every http.SetCookie of package web is reached, through each call site of a helper that holds it, only after verified org membership.",
 		NotDecided:  []string{"cryptographic strength of securecookie / TLS", "GitHub's API answering truthfully", "timing side channels of string comparison", "endpoints that disclose no stored data (index, metrics, insert)"},
 		Assumptions: []string{"grpc dispatches only to the rpc.Server methods through rpc.ServiceDesc", "gorilla/mux dispatches only to the registered handlers"},
 		Rules:       []func(*Ctx){ruleC19a, ruleC19b, ruleC19c, ruleC19d},
